@@ -2,7 +2,7 @@
    output_manager.cpp, the interpolation splitter, format_interpolated_value) and the readers of Spec.v;
    the proofs are in Digits.v / Format.v / Convert.v / Segments.v / Print.v. *)
 From Coq Require Import List Arith Bool Ascii String ZArith NArith.
-From Cb Require Import C16.Model C16.Spec C16.Digits C16.Format C16.Convert C16.Segments C16.Print.
+From Cb Require Import C16.Model C16.Spec C16.Digits C16.Format C16.Convert C16.Segments C16.Print C16.Nested C16.NestedProofs.
 Import ListNotations.
 Local Open Scope char_scope.
 
@@ -260,6 +260,126 @@ Theorem output_before_error_exit : forall e p q op, no_fail p -> exec e p = (inl
 Proof. exact output_before_error_l. Qed.
 Print Assumptions output_before_error_exit.
 
+(* ---------------- rendering inside rendering (Nested.v) ---------------- *)
+
+(* the effect-free programs of Model.v, run by the nested model that is extracted and compared with /repo's
+   binary ([run_main]), give exactly [run_program]: every theorem above speaks about [run_main] too *)
+Theorem nested_model_conservative : forall (e : env) (p : list stmt),
+  run_main (lift_program e p) =
+  match run_program e p with (inl o, failed) => inl (o, failed) | (inr x, _) => inr x end.
+Proof. exact nested_conservative_l. Qed.
+Print Assumptions nested_model_conservative.
+
+(* evaluate_interpolated_string is re-entrant: whatever the evaluation of {ex} writes to stdout ([side]) and
+   whatever it yields - e.g. the value of another interpolated string built meanwhile - the text before and
+   after it is byte-identical and nothing is lost, duplicated or spliced in *)
+Theorem interp_nested_frame : forall e t1 ex t2 side v,
+  plain_text t1 -> no_backslash t1 -> plain_text t2 -> no_braces ex ->
+  mlookup e (fst (split_colon ex)) = inl (side, Some v) ->
+  eval_quoted_m e (t1 ++ "{" :: ex ++ "}" :: t2) =
+  inl (side, Some (t1 ++ format_value v (spec_of (snd (split_colon ex))) ++ t2)).
+Proof. exact interp_nested_frame_l. Qed.
+Print Assumptions interp_nested_frame.
+
+Theorem interp_nested_error : forall e t1 ex t2 side,
+  plain_text t1 -> no_backslash t1 -> plain_text t2 -> no_braces ex ->
+  mlookup e (fst (split_colon ex)) = inl (side, None) ->
+  eval_quoted_m e (t1 ++ "{" :: ex ++ "}" :: t2) = inl (side, None).
+Proof. exact interp_nested_error_l. Qed.
+Print Assumptions interp_nested_error.
+
+(* any segment list: the value is the concatenation of the segments' values, what the expressions write
+   appears in segment order; a failing expression stops the evaluation there *)
+Theorem interp_nested_in_order : forall e l outs, Forall2 (seg_ok e) l outs ->
+  eval_segs_m e l = inl (List.concat (map fst outs), Some (List.concat (map snd outs))).
+Proof. exact eval_segs_m_ok_l. Qed.
+Print Assumptions interp_nested_in_order.
+
+Theorem interp_nested_error_stops : forall e l1 outs ex sp l2 side, Forall2 (seg_ok e) l1 outs ->
+  mlookup e ex = inl (side, None) ->
+  eval_segs_m e (l1 ++ SExpr ex sp :: l2) = inl (List.concat (map fst outs) ++ side, None).
+Proof. exact eval_segs_m_error_l. Qed.
+Print Assumptions interp_nested_error_stops.
+
+(* println(f(..)) : what the call writes, then the text of its value; println("..{f(..)}..") likewise *)
+Theorem print_call_output_then_value : forall e n side v, mlookup e n = inl (side, Some v) ->
+  print_argument_m e (XRef n) = inl (side ++ value_bytes v, Some tt).
+Proof. exact print_call_l. Qed.
+Print Assumptions print_call_output_then_value.
+
+Theorem print_interpolated_output_then_value : forall e s side b, has_interpolation s = true ->
+  eval_quoted_m e s = inl (side, Some b) ->
+  print_argument_m e (XQuoted s) = inl (side ++ cstr b, Some tt).
+Proof. exact print_interpolated_l. Qed.
+Print Assumptions print_interpolated_output_then_value.
+
+(* several arguments, some of which print while they are evaluated: single spaces, each argument's own
+   output right after the separator that precedes it *)
+Theorem println_nested_single_spaces : forall e nl args vs, 2 <= List.length args -> find_fmt_x args = None ->
+  Forall2 (arg_ok e) args vs ->
+  stmt_m e (XPrint nl args) = inl (join_sp vs ++ (if nl then ["010"] else []), Some e).
+Proof. exact println_m_single_spaces_l. Qed.
+Print Assumptions println_nested_single_spaces.
+
+Theorem println_nested_error_keeps_prefix : forall e nl pre vs a post side,
+  find_fmt_x (pre ++ a :: post) = None -> 2 <= List.length (pre ++ a :: post) -> Forall2 (arg_ok e) pre vs ->
+  print_argument_m e a = inl (side, None) ->
+  stmt_m e (XPrint nl (pre ++ a :: post)) =
+  inl (join_sp vs ++ (match pre with [] => [] | _ => [" "] end) ++ side, None).
+Proof. exact println_m_error_l. Qed.
+Print Assumptions println_nested_error_keeps_prefix.
+
+(* the printf path: all arguments after the format literal are evaluated (their output in order) before the
+   rendered text is written; the rendering itself is [render] of the values *)
+Theorem println_nested_format_path : forall e nl pre f post vs outs out,
+  find_fmt_x (pre ++ XQuoted f :: post) = Some (pre, f, post) -> 2 <= List.length (pre ++ XQuoted f :: post) ->
+  Forall2 (arg_ok e) pre vs ->
+  Forall2 (fun a o => eval_arg_m e a = inl (fst o, Some (snd o))) post outs ->
+  render f (map (fun o => farg_of (snd o)) outs) = Some out ->
+  stmt_m e (XPrint nl (pre ++ XQuoted f :: post)) =
+  inl (List.concat (map (fun v => v ++ [" "]) vs) ++ List.concat (map fst outs) ++ cstr out
+       ++ (if nl then ["010"] else []), Some e).
+Proof. exact println_m_format_path_l. Qed.
+Print Assumptions println_nested_format_path.
+
+(* order of output with nested evaluations, and an error raised anywhere inside a statement *)
+Theorem output_in_order_nested : forall e p q op e' oq r,
+  exec_m e p = inl (op, Some e') -> exec_m e' q = inl (oq, r) -> exec_m e (p ++ q) = inl (op ++ oq, r).
+Proof. exact output_in_order_m_l. Qed.
+Print Assumptions output_in_order_nested.
+
+Theorem output_before_nested_error : forall e p s q op e' os,
+  exec_m e p = inl (op, Some e') -> stmt_m e' s = inl (os, None) ->
+  exec_m e (p ++ s :: q) = inl (op ++ os, None).
+Proof. exact output_before_nested_error_l. Qed.
+Print Assumptions output_before_nested_error.
+
+(* a call: arguments left to right, body, return expression; an error in the body ends the caller as well *)
+Theorem call_sequence : forall ps ls body r sides bound ob e' orr v,
+  seq_params ps = inl (sides, Some bound) ->
+  exec_m (bound ++ ls) body = inl (ob, Some e') ->
+  match r with Some a => eval_arg_m e' a = inl (orr, Some v) | None => orr = [] /\ v = VInt 0 end ->
+  call_m ps ls body r = inl (sides ++ ob ++ orr, Some v).
+Proof. exact call_sequence_l. Qed.
+Print Assumptions call_sequence.
+
+Theorem call_error_in_body : forall ps ls body r sides bound ob,
+  seq_params ps = inl (sides, Some bound) -> exec_m (bound ++ ls) body = inl (ob, None) ->
+  call_m ps ls body r = inl (sides ++ ob, None).
+Proof. exact call_error_in_body_l. Qed.
+Print Assumptions call_error_in_body.
+
+(* every depth: a tower of functions f_k() { return "pre_k{f_(k-1)()}post_k"; } around any computation that
+   writes [side] and yields s gives pre_1..pre_n s post_n..post_1 and writes exactly [side]; if the innermost
+   computation raises an error, so does the tower, with the same output *)
+Theorem nested_every_depth : forall ws inner side, Forall wrapper_ok ws ->
+  (forall s, run_comp inner = inl (side, Some (VStr s)) ->
+     run_comp (tower ws inner) =
+     inl (side, Some (VStr (List.concat (map fst ws) ++ s ++ List.concat (map snd (rev ws)))))) /\
+  (run_comp inner = inl (side, None) -> run_comp (tower ws inner) = inl (side, None)).
+Proof. exact tower_value_l. Qed.
+Print Assumptions nested_every_depth.
+
 (* ---------------- non-vacuity ---------------- *)
 Example ex_directive : directive false true 5 "d" = s2l "%05d" /\ directive true false 12 "x" = s2l "%-12x".
 Proof. split; reflexivity. Qed.
@@ -277,4 +397,28 @@ Example ex_program :
   run_program [] [SPrint true [AInt 1; AStr (s2l "two"); AQuoted (s2l "%d!"); AInt 3]; SPrint false [AQuoted (s2l "x\n")]; SFail;
                   SPrint true [AInt 4]]
   = (inl (s2l "1 two 3!" ++ ["010"; "x"; "010"]), true).
+Proof. vm_compute. reflexivity. Qed.
+(* the seeded-change witness: "item {label(id)} is ready" with label(n) = "#{n:03d}", a call that prints, an
+   error inside the innermost call of a println with several arguments *)
+Example ex_nested :
+  let label n := CCall [(s2l "n", CVal (VInt n))] [] [] (Some (XQuoted (s2l "#{n:03d}"))) in
+  let twice v := CCall [(s2l "v", CVal (VInt v))] [] [XPrint true [XQuoted (s2l "  [twice] {v} * 2")]] (Some (XInt (2 * v)%Z)) in
+  run_main (CCall [] [(s2l "label(id)", label 7%Z); (s2l "twice(id)", twice 7%Z); (s2l "id", CVal (VInt 7))]
+              [XPrint true [XQuoted (s2l "item {label(id)} is ready")];
+               XLet (s2l "line") (XQuoted (s2l "result: {twice(id)} (from {id})"));
+               XPrint true [XRef (s2l "line")];
+               XPrint true [XInt 1; XRef (s2l "twice(id)"); XQuoted (s2l "%s|%d"); XRef (s2l "label(id)"); XRef (s2l "twice(id)")]] None)
+  = inl (s2l "item #007 is ready" ++ ["010"] ++ s2l "  [twice] 7 * 2" ++ ["010"] ++ s2l "result: 14 (from 7)" ++ ["010"]
+         ++ s2l "1   [twice] 7 * 2" ++ ["010"] ++ s2l "14   [twice] 7 * 2" ++ ["010"] ++ s2l "#007|14" ++ ["010"], false).
+Proof. vm_compute. reflexivity. Qed.
+Example ex_nested_error :
+  let boom := CCall [] [] [XPrint false [XQuoted (s2l "in")]; XFail; XPrint true [XQuoted (s2l "never")]] (Some (XInt 1)) in
+  run_main (CCall [] [(s2l "boom()", boom)]
+              [XPrint true [XQuoted (s2l "first")]; XPrint true [XInt 5; XQuoted (s2l "a{boom()}b")]; XPrint true [XQuoted (s2l "after")]] None)
+  = inl (s2l "first" ++ ["010"] ++ s2l "5 in", true).
+Proof. vm_compute. reflexivity. Qed.
+Example ex_tower :
+  run_comp (tower [(s2l "<", s2l ">"); (s2l "日本", s2l "語"); ([], s2l "!")]
+                  (CCall [] [] [XPrint false [XQuoted (s2l "side")]] (Some (XQuoted (s2l "x")))))
+  = inl (s2l "side", Some (VStr (s2l "<日本x!語>"))).
 Proof. vm_compute. reflexivity. Qed.
